@@ -1729,6 +1729,10 @@ func (r *pfRun) checkIndex(in ssa.Instruction, X, Index ssa.Value, st *pfState) 
 	S := e.key(X)
 	idx := r.evalInt(Index, st)
 	what := S + "[" + idx.String() + "]"
+	if sortLessIndex(r.fn, X, Index) {
+		e.site(r.fn, in, "index", what, true, "index parameter of the less function given to sort.Slice/SliceStable for this very slice: the library calls it only with 0 <= i, j < len(slice)", r.ctx)
+		return
+	}
 	if !r.linNonNeg(st, idx) {
 		e.site(r.fn, in, "index", what, false, "index may be negative", r.ctx)
 		return
@@ -1738,6 +1742,47 @@ func (r *pfRun) checkIndex(in ssa.Instruction, X, Index ssa.Value, st *pfState) 
 		return
 	}
 	e.site(r.fn, in, "index", what, false, "no dominating guard establishes len("+S+") > "+idx.String(), r.ctx)
+}
+
+// sortLessIndex: fn is a closure used only as the less argument of
+// sort.Slice / sort.SliceStable(x, less), Index is one of its two parameters
+// and X is that same slice x.
+func sortLessIndex(fn *ssa.Function, X, Index ssa.Value) bool {
+	p, ok := Index.(*ssa.Parameter)
+	if !ok || fn.Parent() == nil || len(fn.Params) != 2 || (fn.Params[0] != p && fn.Params[1] != p) {
+		return false
+	}
+	found := false
+	for _, b := range fn.Parent().Blocks {
+		for _, in := range b.Instrs {
+			mc, ok := in.(*ssa.MakeClosure)
+			if !ok || mc.Fn != ssa.Value(fn) {
+				continue
+			}
+			refs := mc.Referrers()
+			if refs == nil {
+				return false
+			}
+			for _, ref := range *refs {
+				call, ok := ref.(*ssa.Call)
+				if !ok {
+					if _, dbg := ref.(*ssa.DebugRef); dbg {
+						continue
+					}
+					return false
+				}
+				cc := call.Common()
+				if !(an.CalleeIs(cc, "sort", "Slice") || an.CalleeIs(cc, "sort", "SliceStable")) || len(cc.Args) != 2 || cc.Args[1] != ssa.Value(mc) {
+					return false
+				}
+				if an.Path(an.Strip(cc.Args[0])) != an.Path(an.Strip(X)) {
+					return false
+				}
+				found = true
+			}
+		}
+	}
+	return found
 }
 
 func (r *pfRun) checkSlice(x *ssa.Slice, st *pfState) {
